@@ -3,7 +3,7 @@
 export GOFLAGS=-mod=mod GOPROXY=off GOSUMDB=off GOTOOLCHAIN=local
 patch=$1; id=$2; tier=${3:-quick}
 cd /repo || exit 2
-git checkout -- . ; git apply "$patch" || { echo "PATCH DOES NOT APPLY"; exit 2; }
+git checkout -- . ; git clean -fdq -- internal cmd; git apply "$patch" || { echo "PATCH DOES NOT APPLY"; exit 2; }
 if ! go build ./... ; then echo "DOES NOT COMPILE"; git checkout -- .; exit 2; fi
 t=$(go test -mod=mod -vet=off -count=1 ./... 2>&1 | grep -v "no test files" | grep -v "^ok" | head -5)
 if [ -n "$t" ]; then echo "PINNED TESTS FAIL: $t"; git checkout -- .; exit 2; fi
@@ -11,5 +11,5 @@ echo "pinned tests pass with the change"
 cd /verif && bin/check "$id" "$tier" > /tmp/seeded_out.txt 2>&1; rc=$?
 grep -E "^VIOLATION|signature|HARNESS|^$id " /tmp/seeded_out.txt | cut -c1-300 | head -8
 echo "check exit=$rc"
-git -C /repo checkout -- .
+git -C /repo checkout -- . ; git -C /repo clean -fdq -- internal cmd
 exit $rc
